@@ -190,6 +190,28 @@ CHECKS = {
              "multipart-raw-stream-reads-past-content-length.",
         technique="Coq proof (lia-based UTF-8 and percent codec round trips, "
                   "list induction) + vm_compute correspondence"),
+    "C11": dict(
+        text="Theorems over the model of check_digest / check_credentials / "
+             "check_response (Authorization tokenizer as a direct scanner, "
+             "unquote, nonce via the C16 token model, hashes as parameters): "
+             "the gate never crashes for any header text; Run u implies a "
+             "registered user, configured algorithm/opaque/qop/realm, uri "
+             "path equal to the request path and query equal, a verifying "
+             "nonce and the response equal to an independently defined RFC "
+             "7616 value (with injective hashes: wrong password / method / "
+             "altered response never run); completeness for the 4 algorithms "
+             "x qop; stale exactly when the nonce does not verify, and for "
+             "server-issued nonces only when old. Correspondence of whole "
+             "WSGI calls with reversible fake hashes and a rebound clock; "
+             "monitor with real hashes, an own RFC 7616 client/verifier and "
+             "every single-field mutation.",
+        design="7/C11",
+        note="hash functions are Section variables (injectivity assumed "
+             "where stated); tokenizer exact for code points <= 255; "
+             "lenient-but-valid headers may be served or refused; nc replay "
+             "is outside the property.",
+        technique="Coq proof (case analysis over the credential ladder) + "
+                  "vm_compute correspondence"),
     "C13": dict(
         text="Theorems: the XOR masking is an involution for every key "
              "stream and text; write/load round trip under the codec laws "
@@ -209,6 +231,27 @@ CHECKS = {
              "the byte level (_partial), the rest is monitored.",
         technique="Coq proof (Z.lxor algebra, invariant over operation "
                   "histories) + vm_compute correspondence"),
+    "C14": dict(
+        text="Theorems: for EVERY history of operations (construction, add, "
+             "add_header with parameters, assignment, deletion, setdefault, "
+             "lookups, hostile arguments) from every start state the model of "
+             "Headers refines a declarative insertion-ordered case-"
+             "insensitive multimap (state and outcome after each step); "
+             "lookups ignore case, assignment replaces all entries, deletion "
+             "removes all and only entries of the name, add refuses a "
+             "duplicate except Set-Cookie in any casing, iteration is "
+             "insertion order; every stored code point is latin-1 and is the "
+             "UTF-8 encoding of the supplied text; utf8(iso88591 s) = s for "
+             "all scalar-value strings (arithmetic UTF-8 round trip); non-"
+             "strings are rejected with TypeError/ValueError and a raising "
+             "operation leaves the collection unchanged. Correspondence on "
+             "exhaustive histories; independent reference multimap monitor.",
+        design="7/C14",
+        note="str.lower modelled for A-Z (names are US-ASCII tokens); UTF-8 "
+             "codecs re-implemented and compared with CPython's.",
+        technique="Coq proof (refinement by induction over operation "
+                  "histories, lia-based UTF-8 round trip) + vm_compute "
+                  "correspondence"),
     "C16": dict(
         text="Theorems over the model of get_token/check_token for every "
              "secret, client, T>0 and instants t0,t1>=0 (verify <-> aligned "
